@@ -257,3 +257,45 @@ fn c08_eq_hash_int_int() {
     kani::cover!(a != b);
     core::mem::forget((a, b));
 }
+
+//@ tier: quick
+//@ funcs: <Num as Ord>::cmp (Int/BigInt arms), <Num as PartialEq>::eq (Int/BigInt arms), BigInt::cmp
+//@ bounds: Int(i) for all isize vs a big integer holding any value of the i64 range (a SMALL value stored as a big integer, which un-normalised arithmetic produces), both argument orders. Two-digit big integers are in the thorough harness c08_int_bigint2_cmp_exact.
+//@ asserts: cmp equals the comparison of the mathematical values, antisymmetric, and == holds exactly when cmp is Equal -- equal integers are interchangeable regardless of representation
+#[kani::proof]
+#[kani::unwind(10)]
+fn c08_int_bigint_cmp_exact() {
+    let i: isize = kani::any();
+    let v: i64 = kani::any();
+    let (x, y) = (Num::Int(i), Num::big_int(BigInt::from(v)));
+    let want = (i as i64).cmp(&v);
+    assert!(x.cmp(&y) == want);
+    assert!(y.cmp(&x) == want.reverse());
+    assert!((x == y) == (want == Equal));
+    assert!((y == x) == (want == Equal));
+    kani::cover!(want == Equal);
+    kani::cover!(want == Less && v > 0 && v < 10);
+    kani::cover!(v == 0 && i < 0);
+    core::mem::forget((x, y));
+}
+
+//@ tier: thorough
+//@ timeout: 1800
+//@ funcs: <Num as Ord>::cmp (Int/BigInt arms), <Num as PartialEq>::eq (Int/BigInt arms), BigInt::cmp
+//@ bounds: Int(i) for all isize vs a big integer of any value representable in 128 bits (one or two 64-bit digits), both argument orders
+//@ asserts: cmp equals the comparison of the mathematical values (i128); == exactly when Equal
+#[kani::proof]
+#[kani::unwind(18)]
+fn c08_int_bigint2_cmp_exact() {
+    let i: isize = kani::any();
+    let v: i128 = kani::any();
+    let (x, y) = (Num::Int(i), Num::big_int(BigInt::from(v)));
+    let want = (i as i128).cmp(&v);
+    assert!(x.cmp(&y) == want);
+    assert!(y.cmp(&x) == want.reverse());
+    assert!((x == y) == (want == Equal));
+    kani::cover!(want == Equal);
+    kani::cover!(v > isize::MAX as i128);
+    kani::cover!(v < isize::MIN as i128);
+    core::mem::forget((x, y));
+}
